@@ -87,7 +87,7 @@ struct Outcome {           // what one execution of a scenario looked like from 
 };
 struct CallPlan { int fn; int obj; Vec<int> vals; Str dev; int task; bool extra; int scope; bool shortForm; };
 struct ExpPlan { int fn; int count; int flags; int obj; Vec<int> vals; int ret; int scope; };      // flags: 1 ignoreOtherParameters, 2 named scope, 4 short form (last parameter not specified, and not passed by its calls)
-struct Scenario { bool strict, ignoreOther, useScope, preFail; Vec<ExpPlan> exps; Vec<CallPlan> calls; Vec<Op> data; };
+struct Scenario { bool strict, ignoreOther, useScope, preFail; int rounds; Vec<ExpPlan> exps; Vec<CallPlan> calls; Vec<Op> data; };
 
 struct Front {
     virtual ~Front() {}
@@ -97,6 +97,7 @@ struct Front {
     virtual void call(const Scenario& sc, const CallPlan& c, Outcome& o) = 0;   // may not return (failure terminates the test)
     virtual void data(const Op& o, Outcome& out) = 0;
     virtual void check(const Scenario& sc) = 0;     // explicit checkExpectations, as a teardown would do
+    virtual void clear() = 0;
 };
 
 static Str tagName(const SimpleString& cppType) {
@@ -135,7 +136,7 @@ struct CppFront : public Front {
     }
     void expect(const Scenario& sc, const ExpPlan& e) {
         const Fn& F = FNS[e.fn];
-        if (e.count == 0) { m(sc, e.scope).expectNoCall(F.name); return; }
+        if (e.count == 0 && !(e.flags & 8)) { m(sc, e.scope).expectNoCall(F.name); return; }
         MockExpectedCall& x = e.count == 1 ? m(sc, e.scope).expectOneCall(F.name) : m(sc, e.scope).expectNCalls((unsigned)e.count, F.name);
         if (e.obj) x.onObject(objectPtr(e.obj));
         int np = (e.flags & 5) ? (F.np > 1 ? F.np - 1 : F.np) : F.np;     // ignoreOtherParameters / short form: the last parameter is left unspecified
@@ -224,9 +225,24 @@ struct CppFront : public Front {
         }
         if (F.out && F.outTy == T_INT) line += sfmt(" out=%d", outInt);
         if (F.out && F.outTy == T_OBJ) line += sfmt(" out=MyType(%d)", outObj.x);
+        {   // the same value through the mock-support level getters of the scope the call was made in
+            MockSupport& M = m(sc, c.scope); bool h2 = M.hasReturnValue();
+            line += sfmt(" | sup has=%d tag=%s", (int)h2, h2 ? tagName(M.returnValue().getType()).c_str() : "-");
+            switch (F.ret) {
+            case T_INT: line += sfmt(" def=%d", M.returnIntValueOrDefault(-5)); if (h2) line += sfmt(" v=%d", M.intReturnValue()); break;
+            case T_STRING: line += sfmt(" def=%s", M.returnStringValueOrDefault("dflt")); if (h2) line += sfmt(" v=%s", M.stringReturnValue()); break;
+            case T_PTR: line += sfmt(" def=%lx", (unsigned long)(uintptr_t)M.returnPointerValueOrDefault((void*)0x77)); if (h2) line += sfmt(" v=%lx", (unsigned long)(uintptr_t)M.pointerReturnValue()); break;
+            case T_BOOL: line += sfmt(" def=%d", (int)M.returnBoolValueOrDefault(true)); break;
+            case T_ULONG: line += sfmt(" def=%lu", M.returnUnsignedLongIntValueOrDefault(8)); if (h2) line += sfmt(" v=%lu", M.unsignedLongIntReturnValue()); break;
+            case T_LL: line += sfmt(" def=%lld", (long long)M.returnLongLongIntValueOrDefault(-9)); break;
+            case T_DOUBLE: line += sfmt(" def=%.6f", M.returnDoubleValueOrDefault(9.5)); break;
+            default: break;
+            }
+        }
         o.log.push_back(line); o.callsMade++;
     }
     void check(const Scenario&) { mock().checkExpectations(); }
+    void clear() { mock().clear(); }
     void data(const Op& op, Outcome& out) {
         MockSupport& M = mock();
         const char* nm = op.s.c_str(); int v = (int)(op.b & 7);
@@ -262,7 +278,7 @@ struct CFront : public Front {
     }
     void expect(const Scenario& sc, const ExpPlan& e) {
         const Fn& F = FNS[e.fn];
-        if (e.count == 0) { m(sc, e.scope)->expectNoCall(F.name); return; }
+        if (e.count == 0 && !(e.flags & 8)) { m(sc, e.scope)->expectNoCall(F.name); return; }
         MockExpectedCall_c* x = e.count == 1 ? m(sc, e.scope)->expectOneCall(F.name) : m(sc, e.scope)->expectNCalls((unsigned)e.count, F.name);
         int np = (e.flags & 5) ? (F.np > 1 ? F.np - 1 : F.np) : F.np;
         for (int k = 0; k < np; k++) {
@@ -348,9 +364,24 @@ struct CFront : public Front {
         }
         if (F.out && F.outTy == T_INT) line += sfmt(" out=%d", outInt);
         if (F.out && F.outTy == T_OBJ) line += sfmt(" out=MyType(%d)", outObj.x);
+        {
+            MockSupport_c* M = m(sc, c.scope); bool h2 = M->hasReturnValue() != 0;
+            line += sfmt(" | sup has=%d tag=%s", (int)h2, h2 ? tagNameC(M->returnValue().type).c_str() : "-");
+            switch (F.ret) {
+            case T_INT: line += sfmt(" def=%d", M->returnIntValueOrDefault(-5)); if (h2) line += sfmt(" v=%d", M->intReturnValue()); break;
+            case T_STRING: line += sfmt(" def=%s", M->returnStringValueOrDefault("dflt")); if (h2) line += sfmt(" v=%s", M->stringReturnValue()); break;
+            case T_PTR: line += sfmt(" def=%lx", (unsigned long)(uintptr_t)M->returnPointerValueOrDefault((void*)0x77)); if (h2) line += sfmt(" v=%lx", (unsigned long)(uintptr_t)M->pointerReturnValue()); break;
+            case T_BOOL: line += sfmt(" def=%d", M->returnBoolValueOrDefault(1) ? 1 : 0); break;
+            case T_ULONG: line += sfmt(" def=%lu", M->returnUnsignedLongIntValueOrDefault(8)); if (h2) line += sfmt(" v=%lu", M->unsignedLongIntReturnValue()); break;
+            case T_LL: line += sfmt(" def=%lld", (long long)M->returnLongLongIntValueOrDefault(-9)); break;
+            case T_DOUBLE: line += sfmt(" def=%.6f", M->returnDoubleValueOrDefault(9.5)); break;
+            default: break;
+            }
+        }
         o.log.push_back(line); o.callsMade++;
     }
     void check(const Scenario&) { mock_c()->checkExpectations(); }
+    void clear() { mock_c()->clear(); }
     void data(const Op& op, Outcome& out) {
         MockSupport_c* M = mock_c();
         const char* nm = op.s.c_str(); int v = (int)(op.b & 7);
@@ -384,8 +415,11 @@ static void scenarioBody() {
     const Scenario& sc = *T.sc;
     T.front->begin(sc);
     for (size_t i = 0; i < sc.data.size(); i++) T.front->data(sc.data[i], *T.out);
-    for (size_t i = 0; i < sc.exps.size(); i++) T.front->expect(sc, sc.exps[i]);
-    for (size_t i = 0; i < T.order->size(); i++) T.front->call(sc, sc.calls[(*T.order)[i]], *T.out);
+    for (int round = 0; round < sc.rounds; round++) {
+        for (size_t i = 0; i < sc.exps.size(); i++) T.front->expect(sc, sc.exps[i]);
+        for (size_t i = 0; i < T.order->size(); i++) T.front->call(sc, sc.calls[(*T.order)[i]], *T.out);
+        if (sc.rounds > 1) { T.front->check(sc); T.front->clear(); }       // check and clear, then the same scenario once more in the same test
+    }
     T.out->bodyCompleted = true;
 }
 class ScenarioTest : public Utest {
@@ -450,7 +484,7 @@ struct Engine : public vf::Engine {
         for (int s = 0; s < nScen; s++) {
             Group G; G.tag = "scenario";
             bool strict = w.chance(1, 4), ignoreOther = w.chance(1, 5), scope = w.chance(1, 5);
-            G.args.push_back(strict); G.args.push_back(ignoreOther); G.args.push_back(scope); G.args.push_back(cfront && w.chance(1, 6));
+            G.args.push_back(strict); G.args.push_back(ignoreOther); G.args.push_back(scope); G.args.push_back(cfront && w.chance(1, 6)); G.args.push_back(cfront && w.chance(1, 6) ? 2 : 1);
             bool mixedScopes = !strict && !scope && w.chance(1, 4), shortForms = w.chance(1, 5);
             int nFn = (int)w.range(1, 4); int fns[4]; for (int i = 0; i < nFn; i++) fns[i] = (int)w.below(N_FN);
             int nExp = (int)w.small(1, 12);
@@ -474,7 +508,7 @@ struct Engine : public vf::Engine {
                 if (o.b == 0 && fnSeen) continue;                         // expectNoCall only for functions that are otherwise unexpected
                 if (dupKey && strict) continue;
                 if (dupKey) { /* the same class again: multiplicities add up */ }
-                if (o.b == 0) { o.d = 0; }
+                if (o.b == 0) { o.d = 0; if (w.chance(1, 2)) o.c |= 8; }       // expectNoCall, or expectNCalls(0, name) with the parameters chained on it
                 classes.push_back(key);
                 o.s = joinIdx(vals); o.s2 = sfmt("%d", (int)w.below(8));
                 if (dupKey) for (size_t k = 0; k < G.ops.size(); k++) if (G.ops[k].kind == M_EXPECT && G.ops[k].a == o.a && G.ops[k].d == o.d && G.ops[k].s == o.s) o.s2 = G.ops[k].s2;   // one class, one return value
@@ -516,7 +550,7 @@ struct Engine : public vf::Engine {
 
     // -------------------------------------------------------------------------------------------- model
     static void buildScenario(const Group& G, Scenario& sc) {
-        sc.strict = G.arg(0) != 0; sc.ignoreOther = G.arg(1) != 0; sc.useScope = G.arg(2) != 0; sc.preFail = G.arg(3) != 0;
+        sc.strict = G.arg(0) != 0; sc.ignoreOther = G.arg(1) != 0; sc.useScope = G.arg(2) != 0; sc.preFail = G.arg(3) != 0; sc.rounds = G.arg(4, 1) == 2 ? 2 : 1;
         for (size_t i = 0; i < G.ops.size(); i++) {
             const Op& o = G.ops[i];
             if (o.kind == M_EXPECT) { ExpPlan e; e.fn = (int)(o.a % N_FN); e.count = (int)o.b; e.flags = (int)o.c; e.obj = (int)o.d; e.vals = parseIdx(o.s); e.vals.resize((size_t)FNS[e.fn].np, 0); e.ret = atoi(o.s2.c_str()); e.scope = (e.flags & 2) ? 1 : 0; sc.exps.push_back(e); }
@@ -668,6 +702,7 @@ struct Engine : public vf::Engine {
             for (size_t i = 0; i < scs.size(); i++) {
                 Vec<Cls> cls;
                 if (scs[i].preFail) { probe("scenario_fails_before_mock_check"); continue; }
+                if (scs[i].rounds > 1) { probe("scenario_two_rounds_with_clear"); continue; }
                 if (!buildClasses(scs[i], cls)) { probe("scenario_outside_precondition"); continue; }
                 Walk x; model(scs[i], orders[i], cls, x);
                 bool passed = outs[i].failures == 0;
@@ -729,6 +764,7 @@ struct Engine : public vf::Engine {
         if (d.pi("schedules") > 1) { Desc c = d; c.p["schedules"] = 1; out.push_back(c); }
         for (size_t g = 0; g < d.groups.size(); g++) {
             for (size_t k = 0; k < 4; k++) if (d.groups[g].arg(k)) { Desc c = d; c.groups[g].args[k] = 0; out.push_back(c); }
+            if (d.groups[g].arg(4, 1) == 2) { Desc c = d; c.groups[g].args[4] = 1; out.push_back(c); }
             for (size_t i = 0; i < d.groups[g].ops.size(); i++) { const Op& o = d.groups[g].ops[i]; if (o.kind == M_EXPECT && o.b > 1) { Desc c = d; c.groups[g].ops[i].b = o.b - 1; out.push_back(c); } if (o.kind == M_CALL && o.phase) { Desc c = d; c.groups[g].ops[i].phase = 0; out.push_back(c); } }
         }
     }
